@@ -93,9 +93,18 @@ def gen_case(rng, tier):
     # placeholders among call/bind arguments; every tree also holds a recorder that must not run before the check
     base['items'].append(['rec0', SP('call', func='verif_targets.canary', args=M([['x', S(1)]]))])
     if rng.random() < 0.5:
-        args = M([['x', SP('required')], ['y', S(mk.next(rng))]]) if rng.random() < 0.6 else L([S(mk.next(rng)), SP('required')])
+        r = rng.random()
+        if r < 0.35:
+            args, rp = M([['x', SP('required')], ['y', S(mk.next(rng))]]), [('fn', 'x')]
+        elif r < 0.55:
+            args, rp = L([S(mk.next(rng)), SP('required')]), [('fn', 1)]
+        elif r < 0.8:
+            # nested inside a list / mapping which is itself an argument
+            args, rp = M([['layers', L([S(64), SP('required')])], ['opt', M([['lr', SP('required')], ['m', S(1)]])]]), [('fn', 'layers', 1), ('fn', 'opt', 'lr')]
+        else:
+            args, rp = M([['x', S(1)], ['inner', SP('bind', func='verif_targets.inner', args=M([['deep', L([SP('required')])]]))]]), [('fn', 'inner', 'deep', 0)]
         base['items'].append(['fn', SP(rng.choice(['call', 'bind']), func='verif_targets.withreq', args=args)])
-        req_paths.append(('fn', 'x') if args['t'] == 'map' else ('fn', 1))
+        req_paths.extend(rp)
     if rng.random() < 0.3:
         base = gen.place_flags(rng, base, p=0.15, vocab=('prio', 'del', 'md'), on_seq_elems=False)
     docs = [base]
